@@ -32,6 +32,8 @@ def dedup_value(rng, t, env=None, depth=0):
         return "(0 " + " ".join(dedup_value(rng, x, env, depth) for x in t[1]) + ")"
     if k == "wrap":
         return dedup_value(rng, t[2], env, depth)
+    if k == "seq" and t[3] == ("prim", "u8") and t[1] in ("vec", "slice", "arr"):
+        return G.gen_value(rng, t, env, 0.5)         # byte containers are written as one byte string
     if k == "seq":
         n = t[2] if t[1] == "arr" else rng.choice([0, 1, 2, 3, 5, 8])
         if depth > 2:
@@ -136,6 +138,51 @@ def check(rep, tier, seed):
             t = ("seq", "vec", 0, t)
         cases.append(R.mk(env, t, dedup_value(rng, t, env), rng.choice(R.SUFFIXES)))
     ob2, impl, mod, bad, dis = R.run_and_judge(rep, "C09", "C09", cases, tier, seed)
+    # the same through the real derive macro: every catalogue declaration that reaches a de-duplicated string, values
+    # over the small alphabet (the ORDER in which the generated writer and reader meet the strings is the macro's)
+    cenv = K.load()
+
+    def reaches_dstr(t, seen):
+        k = t[0]
+        if k == "prim":
+            return t[1] == "dstr"
+        if k in ("opt",):
+            return reaches_dstr(t[1], seen)
+        if k == "tup":
+            return any(reaches_dstr(x, seen) for x in t[1])
+        if k == "seq":
+            return reaches_dstr(t[3], seen)
+        if k == "wrap":
+            return reaches_dstr(t[2], seen)
+        if k == "res":
+            return reaches_dstr(t[1], seen) or reaches_dstr(t[2], seen)
+        if k == "map":
+            return reaches_dstr(t[2], seen) or reaches_dstr(t[3], seen)
+        if k == "named":
+            if t[1] in seen:
+                return False
+            d = cenv[t[1]]
+            fs = d["fields"] if d["kind"] == "rec" else [f for v in d["variants"] for f in v["fields"]]
+            return any(reaches_dstr(f["ty"], seen | {t[1]}) for f in fs)
+        return False
+    sc = []
+    ids = [i for i in range(len(cenv)) if reaches_dstr(("named", i), set())]
+    for i in ids:
+        for _ in range(12 if tier == "quick" else 300):
+            sc.append({"cmd": "srt", "w": i, "val": dedup_value(rng, ("named", i), cenv), "sfx": rng.choice(R.SUFFIXES)})
+    sbad, sdis, shl, simpl = R.static_block(harness, model, C.workdir("C09s"), sc, cenv, "st", R.judge_static_rt(cenv))
+    rep.coverage["static_declarations_with_dedup_strings"] = {"declarations": len(ids), "cases": len(sc), "failing": len(sbad),
+                                                              "disagreements": len(sdis)}
+    rep.coverage["evaluations"] += len(sc)
+    if sbad and not rep.violations:
+        l, a, why = sbad[0]
+        rep.violation(f"derived codec with de-duplicated strings (static catalogue): {why}: {l[:200]}",
+                      {"kind": "case", "case": l, "implementation": a, "why": why, "n_failing": len(sbad)})
+    elif sdis and not rep.violations:
+        l, a, b = sdis[0]
+        rep.violation(f"derived codec with de-duplicated strings: implementation and model disagree on {l[:160]}",
+                      {"kind": "correspondence", "stream": "static/dedup", "case": l, "implementation": a, "model": b,
+                       "n_disagreements": len(sdis)}, no_input=True)
     # first occurrence is byte-for-byte a plain string: a flat stream without repeats equals its plain twin
     twins, which = [], []
     for c, a in zip(cases, impl):
